@@ -609,7 +609,7 @@ package keeper
 
 //@ func (Keeper).Requests
 //@ vars (keeper.Keeper).Requests: k=github.com/irismod/service/keeper.Keeper#0 c=context.Context#0 req=*github.com/irismod/service/types.QueryRequestsRequest#0 ctx=github.com/cosmos/cosmos-sdk/types.Context#0 iterator=github.com/cosmos/cosmos-sdk/types.Iterator#0 requests=[]*github.com/irismod/service/types.Request#0 requestID=github.com/gogo/protobuf/types.BytesValue#0 request=github.com/irismod/service/types.Request#0
-//@ props C17
+//@ props C17 C18
 //@ loop 0 invariant pos_in_range: 0 <= iterator_pos && iterator_pos <= itCount(iterator_snap, iterator_pfx)
 //@ loop 0 invariant snapshot: iterator_snap == raw && iterator_pfx == PActBind(req.ServiceName, req.Provider)
 //@ loop 0 invariant listed_so_far: requests == reqsByMarkerIt(iterator_snap, iterator_pfx, iterator_pos)
@@ -686,7 +686,7 @@ package keeper
 
 //@ func queryRequests
 //@ vars keeper.queryRequests: ctx=github.com/cosmos/cosmos-sdk/types.Context#0 req=github.com/tendermint/tendermint/abci/types.RequestQuery#0 k=github.com/irismod/service/keeper.Keeper#0 legacyQuerierCdc=*github.com/cosmos/cosmos-sdk/codec.LegacyAmino#0 params=github.com/irismod/service/types.QueryRequestsParams#0 err=error#0 iterator=github.com/cosmos/cosmos-sdk/types.Iterator#0 requests=[]github.com/irismod/service/types.Request#0 requestID=github.com/gogo/protobuf/types.BytesValue#0 request=github.com/irismod/service/types.Request#0 bz=[]byte#0 err=error#1
-//@ props C17
+//@ props C17 C18
 //@ loop 0 invariant pos_in_range: 0 <= iterator_pos && iterator_pos <= itCount(iterator_snap, iterator_pfx)
 //@ loop 0 invariant snapshot: iterator_snap == raw && iterator_pfx == PActBind(params.ServiceName, params.Provider)
 //@ loop 0 invariant listed_so_far: requests == reqsByMarkerIt(iterator_snap, iterator_pfx, iterator_pos)
